@@ -159,6 +159,18 @@ func runC02(ctx *core.Ctx, idx int) *core.Result {
 		importBindingCase(ctx, idx, res, g)
 		return res
 	}
+	if idx%35 == 11 {
+		// a later change of the same patch binds its metavariables in code that one rewrite of an earlier change wrote
+		chain, plants, word := followUpChain(g, idx/35)
+		var srcs, extra []string
+		for f := 0; f < 4; f++ {
+			srcs = append(srcs, g.File(gen.FileOpts{Plants: plants}))
+			extra = append(extra, word)
+		}
+		res.Ob("patterns:follow-up-changes:"+word, 1)
+		semBatchSeq(ctx, idx, res, chain, srcs, extra, idx%70 == 11, "C02")
+		return res
+	}
 	switch stream {
 	case 0, 1:
 		c := c02Change(idx / 5)
